@@ -305,3 +305,138 @@ Proof.
   rewrite <- (c11_queue_history _ (e2e_reach _ _ _ _ _ H)). now rewrite <- !app_assoc.
 Qed.
 End E2E.
+
+(* ---------- the worker alone ---------- *)
+Lemma listN_eqb_refl l : listN_eqb l l = true.
+Proof. induction l as [|x l IH]; simpl; [reflexivity|]. now rewrite N.eqb_refl. Qed.
+
+Lemma wnext_step s l : wnext s = Some l -> exists s', step s l = Some s' /\ (wmeasure s' < wmeasure s)%nat.
+Proof.
+  unfold wnext, wmeasure. destruct (pc s) eqn:P; try discriminate.
+  - intros [= <-]. unfold step. rewrite P, N.eqb_refl. eexists; split; [reflexivity|]. simpl. lia.
+  - intros [= <-]. unfold step. rewrite P, N.eqb_refl. destruct (tget id (table s)) eqn:T.
+    + eexists; split; [reflexivity|]. simpl. lia.
+    + eexists; split; [reflexivity|]. simpl. lia.
+  - intros [= <-]. unfold step. rewrite P, Nat.eqb_refl. eexists; split; [reflexivity|]. simpl. lia.
+  - intros [= <-]. unfold step. rewrite P, N.eqb_refl. eexists; split; [reflexivity|]. simpl. lia.
+  - intros [= <-]. unfold step. rewrite P, N.eqb_refl. eexists; split; [reflexivity|]. simpl. lia.
+  - destruct (skipok s) eqn:K; intros [= <-]; unfold step; rewrite P.
+    + cbn [N.eqb]. rewrite K. eexists; split; [reflexivity|]. simpl. lia.
+    + rewrite listN_eqb_refl. eexists; split; [reflexivity|]. simpl. rewrite map_length. lia.
+  - intros [= <-]. unfold step. rewrite P. eexists; split; [reflexivity|]. simpl. lia.
+  - destruct rids as [|r rest]; intros [= <-]; unfold step; rewrite P.
+    + cbn [N.eqb]. eexists; split; [reflexivity|]. simpl. lia.
+    + rewrite Nat.eqb_refl. eexists; split; [reflexivity|]. simpl. lia.
+  - intros [= <-]. unfold step. rewrite P. eexists; split; [reflexivity|]. simpl. lia.
+Qed.
+
+Lemma settle_run : forall f s, run s (settle_labels f s) = Some (settle f s).
+Proof.
+  induction f as [|f IH]; intros s; [reflexivity|]. cbn [settle settle_labels].
+  destruct (wnext s) as [l|]; [|reflexivity].
+  destruct (step s l) as [s'|] eqn:E; [|reflexivity]. cbn [run]. rewrite E. apply IH.
+Qed.
+
+Lemma wmeasure_0 s : wmeasure s = 0%nat -> pc s = WIdle \/ pc s = WExited.
+Proof. unfold wmeasure. destruct (pc s); auto; discriminate. Qed.
+
+Lemma settle_done : forall f s, (wmeasure s <= f)%nat -> pc (settle f s) = WIdle \/ pc (settle f s) = WExited.
+Proof.
+  induction f as [|f IH]; intros s Hm.
+  - apply wmeasure_0. simpl. lia.
+  - cbn [settle]. destruct (wnext s) as [l|] eqn:W.
+    + destruct (wnext_step _ _ W) as (s' & E & Hlt). rewrite E. apply IH. lia.
+    + unfold wnext in W. destruct (pc s) eqn:P; auto; try discriminate.
+      * destruct (skipok s); discriminate.
+      * destruct rids; discriminate.
+Qed.
+
+Lemma settle_fuel_ok s : (wmeasure s <= settle_fuel s)%nat.
+Proof. unfold wmeasure, settle_fuel. destruct (pc s); lia. Qed.
+
+(* after a dispatch the worker, left alone, is idle again or has exited: [serve] never stops half-way *)
+Lemma settle_complete s : pc (settle (settle_fuel s) s) = WIdle \/ pc (settle (settle_fuel s) s) = WExited.
+Proof. apply settle_done, settle_fuel_ok. Qed.
+
+Lemma settle_labels_err : forall f s, left_loop (pc s) = true -> Forall worker_err_label (settle_labels f s).
+Proof.
+  induction f as [|f IH]; intros s Hl; [constructor|]. cbn [settle_labels].
+  destruct (wnext s) as [l|] eqn:W; [|constructor].
+  destruct (step s l) as [s'|] eqn:E; [|constructor]. constructor.
+  - unfold wnext in W. destruct (pc s) eqn:P; try discriminate; try (injection W as <-; exact I).
+    + destruct (skipok s); injection W as <-; exact I.
+    + destruct rids; injection W as <-; exact I.
+  - apply IH. eapply left_loop_step; eauto.
+Qed.
+
+Lemma left_loop_exits s : left_loop (pc s) = true ->
+  exists ws s', Forall worker_err_label ws /\ run s ws = Some s' /\ pc s' = WExited.
+Proof.
+  intros Hl. exists (settle_labels (settle_fuel s) s), (settle (settle_fuel s) s).
+  split; [apply settle_labels_err; exact Hl|]. split; [apply settle_run|].
+  destruct (settle_complete s) as [H|H]; [|exact H].
+  pose proof (run_left_loop _ _ _ (settle_run (settle_fuel s) s) Hl) as H2. rewrite H in H2. discriminate.
+Qed.
+
+Section E2E2.
+Variable classify : bytes -> N * N.
+
+(* worker effects of the error path are accepted by the composed model whenever the LTS accepts them *)
+Lemma erun_EL_err : forall ws s x, left_loop (pc (lts s)) = true -> Forall worker_err_label ws ->
+  run (lts s) ws = Some x ->
+  erun classify s (map EL ws) = Some ({| lts := x; par := par s; pend := pend s |}, ws).
+Proof.
+  induction ws as [|l ws IH]; intros s x Hl Hw H; simpl in H.
+  - injection H as <-. destruct s; reflexivity.
+  - destruct (step (lts s) l) as [s1|] eqn:E; [|discriminate].
+    apply Forall_cons_iff in Hw as [Hw1 Hw2].
+    cbn [map erun]. unfold estep.
+    assert (Hi : inbound l = false) by (destruct l; try reflexivity; destruct Hw1).
+    assert (Hp : loop_label (pc (lts s)) l = false).
+    { destruct l; try reflexivity; try destruct Hw1. simpl. destruct (pc (lts s)); try reflexivity; discriminate. }
+    rewrite Hi, Hp, E. cbn [orb andb].
+    rewrite (IH {| lts := s1; par := par s; pend := pend s |} x); auto.
+    cbn [lts]. eapply left_loop_step; eauto.
+Qed.
+
+Lemma e2e_loss_completes s : left_loop (pc (lts s)) = true ->
+  exists ws s' ls, Forall worker_err_label ws /\ erun classify s (map EL ws) = Some (s', ls) /\ pc (lts s') = WExited.
+Proof.
+  intros Hl. destruct (left_loop_exits _ Hl) as (ws & x & Hw & Hr & Hx).
+  exists ws, {| lts := x; par := par s; pend := pend s |}, ws. split; [exact Hw|]. split; [|exact Hx].
+  apply erun_EL_err; auto.
+Qed.
+
+(* ---- serving a stream with the clients quiet ---- *)
+Notation serve_events := (serve_events classify).
+
+Lemma serve_events_stuck evs s : is_idle (pc s) = false -> serve_events s evs = s.
+Proof. intros H. destruct evs; simpl; [reflexivity|]. now rewrite H. Qed.
+
+Lemma serve_events_app : forall a b s, serve_events s (a ++ b) = serve_events (serve_events s a) b.
+Proof.
+  induction a as [|e a IH]; intros b s; [reflexivity|]. cbn [app SessionE2E.serve_events].
+  destruct (is_idle (pc s)) eqn:I.
+  - destruct (step s (ev_label classify e)); apply IH.
+  - now rewrite serve_events_stuck.
+Qed.
+
+Lemma serve_lts : forall segs s, pend s = [] ->
+  lts (serve classify s segs) = serve_events (lts s) (events pfeed (par s) segs).
+Proof.
+  induction segs as [|seg segs IH]; intros s Hp; [reflexivity|]. cbn [serve]. rewrite Hp. cbn [nil_b].
+  rewrite andb_true_r. destruct (is_idle (pc (lts s))) eqn:I.
+  - rewrite events_cons. destruct (pfeed (par s) seg) as [p' evs]. rewrite IH by reflexivity.
+    cbn [lts par fst snd]. now rewrite serve_events_app.
+  - now rewrite serve_events_stuck.
+Qed.
+
+Lemma e2e_serve_stream b11 s0 segs :
+  serve_stream classify s0 (pinit b11) segs = serve_events s0 (stream_events b11 (concat segs)).
+Proof. unfold serve_stream. rewrite serve_lts by reflexivity. cbn [lts par]. now rewrite pevents_stream. Qed.
+
+Lemma e2e_serve_segmentation_independent b11 s0 segs1 segs2 :
+  concat segs1 = concat segs2 ->
+  serve_stream classify s0 (pinit b11) segs1 = serve_stream classify s0 (pinit b11) segs2.
+Proof. intros H. now rewrite !e2e_serve_stream, H. Qed.
+End E2E2.
